@@ -182,6 +182,8 @@ type payStream struct {
 	r     *fakeRouter
 	plan  *[]payStep
 	track bool
+	// noInflight: the request asked lnd to report the final state only (no_inflight_updates)
+	noInflight bool
 }
 
 func (s *payStream) Recv() (*lnrpc.Payment, error) {
@@ -192,6 +194,15 @@ func (s *payStream) Recv() (*lnrpc.Payment, error) {
 	}
 	st := (*s.plan)[0]
 	*s.plan = (*s.plan)[1:]
+	for s.noInflight && st.status == lnrpc.Payment_IN_FLIGHT && st.err == nil && !st.heldLong {
+		// lnd keeps in-flight updates to itself; the stream waits for the next one
+		s.r.inFlight = true
+		if len(*s.plan) == 0 {
+			return nil, status.Error(codes.Unavailable, "stream closed")
+		}
+		st = (*s.plan)[0]
+		*s.plan = (*s.plan)[1:]
+	}
 	if st.heldLong {
 		if _, ok := s.ctx.Deadline(); ok {
 			// the caller's deadline passes while the HTLC is still out
@@ -219,14 +230,14 @@ func (r *fakeRouter) SendPaymentV2(ctx context.Context, in *routerrpc.SendPaymen
 	r.mu.Lock()
 	r.sendReqs = append(r.sendReqs, in)
 	r.mu.Unlock()
-	return &payStream{ctx: ctx, r: r, plan: &r.plan}, nil
+	return &payStream{ctx: ctx, r: r, plan: &r.plan, noInflight: in.NoInflightUpdates}, nil
 }
 
 func (r *fakeRouter) TrackPaymentV2(ctx context.Context, in *routerrpc.TrackPaymentRequest, _ ...grpc.CallOption) (routerrpc.Router_TrackPaymentV2Client, error) {
 	r.mu.Lock()
 	r.trackReqs = append(r.trackReqs, in)
 	r.mu.Unlock()
-	return &payStream{ctx: ctx, r: r, plan: &r.trackPlan, track: true}, nil
+	return &payStream{ctx: ctx, r: r, plan: &r.trackPlan, track: true, noInflight: in.NoInflightUpdates}, nil
 }
 
 // TestC06LndPaymentAdapter: the LND adapter reports a claim payment as failed only when lnd said so (or
@@ -319,18 +330,23 @@ func TestC04LndRecoverClaimPayment(t *testing.T) {
 		f := &fakeLnd{edges: map[uint64]*lnrpc.ChannelEdge{},
 			invoices: map[string]*lnrpc.PayReq{"lnbcrt1claim": {Destination: peer, NumSatoshis: 5000, NumMsat: 5_000_000, CltvExpiry: 18, PaymentHash: strings.Repeat("cd", 32)}}}
 		r := &fakeRouter{preimage: strings.Repeat("ef", 32)}
-		outcome := rapid.SampledFrom([]string{"succeeded", "failed", "unknown-payment", "stream-error", "in-flight-only"}).Draw(t, "outcome")
+		outcome := rapid.SampledFrom([]string{"succeeded", "succeeded", "failed", "unknown-payment", "stream-error", "in-flight-only"}).Draw(t, "outcome")
+		// the HTLC of the payment started before the restart may still be out when the node asks
+		stillOut := rapid.IntRange(0, 2).Draw(t, "inFlightUpdatesFirst")
+		for i := 0; i < stillOut && outcome != "unknown-payment"; i++ {
+			r.trackPlan = append(r.trackPlan, payStep{status: lnrpc.Payment_IN_FLIGHT})
+		}
 		switch outcome {
 		case "succeeded":
-			r.trackPlan = []payStep{{status: lnrpc.Payment_SUCCEEDED}}
+			r.trackPlan = append(r.trackPlan, payStep{status: lnrpc.Payment_SUCCEEDED})
 		case "failed":
-			r.trackPlan = []payStep{{status: lnrpc.Payment_FAILED}}
+			r.trackPlan = append(r.trackPlan, payStep{status: lnrpc.Payment_FAILED})
 		case "unknown-payment":
 			r.trackPlan = []payStep{{err: status.Error(codes.NotFound, "payment isn't initiated")}}
 		case "stream-error":
-			r.trackPlan = []payStep{{err: status.Error(codes.Unavailable, "transport is closing")}}
+			r.trackPlan = append(r.trackPlan, payStep{err: status.Error(codes.Unavailable, "transport is closing")})
 		case "in-flight-only":
-			r.trackPlan = []payStep{{status: lnrpc.Payment_IN_FLIGHT}}
+			r.trackPlan = append(r.trackPlan, payStep{status: lnrpc.Payment_IN_FLIGHT})
 		}
 		cl := lnd.VerifNewClient(context.Background(), f, nil, r, nil)
 		pre, err := cl.RecoverClaimPayment("lnbcrt1claim")
@@ -339,12 +355,18 @@ func TestC04LndRecoverClaimPayment(t *testing.T) {
 		}
 		if outcome == "succeeded" {
 			if err != nil || pre != r.preimage {
-				t.Fatalf("VKEY[C06/lnd-adapter/settled-payment-not-recovered] settled payment reported as (%q, %v)", pre, err)
+				key := "C06/lnd-adapter/settled-payment-not-recovered"
+				if stillOut > 0 {
+					// an error here sends the taker down the failure path (coop_close with the swap key)
+					// while the HTLC can still be settled
+					key = "C06/lnd-adapter/gave-up-on-recovered-payment-in-flight"
+				}
+				t.Fatalf("VKEY[%s] the payment settles after %d in-flight update(s), RecoverClaimPayment returned (%q, %v)", key, stillOut, pre, err)
 			}
 		} else if err == nil {
 			t.Fatalf("VKEY[C06/lnd-adapter/unsettled-payment-recovered] outcome %s: RecoverClaimPayment returned preimage %q", outcome, pre)
 		}
-		col.Case(outcome, true, outcome, "outcome:"+outcome)
+		col.Case(fmt.Sprintf("%s/%d", outcome, stillOut), true, outcome, "outcome:"+outcome, fmt.Sprintf("in-flight-first:%d", stillOut))
 	})
 }
 
